@@ -875,7 +875,7 @@ impl Scenario for IsolationScn {
     }
     fn assumptions(&self) -> Vec<&'static str> {
         vec![
-            "interleaving is at operation granularity on one thread: lock-level schedules inside one zone operation (parking_lot RwLocks) are not explored",
+            "this scenario interleaves at operation granularity on one thread; lock-level schedules inside one zone operation (parking_lot RwLocks, real threads) are the zone_threads scenario's",
             "the content model covers plain RRset operations only (no make_cname/make_zone_cut through the write interface)",
         ]
     }
